@@ -314,6 +314,9 @@ elem!(T3D, 3, 1, drop);
 elem!(W8, 8, 8, nodrop);
 elem!(W8D, 8, 8, drop);
 elem!(W8A4, 8, 4, nodrop);
+elem!(W8A4D, 8, 4, drop);
+elem!(P4A1D, 4, 1, drop);
+elem!(H2A1, 2, 1, nodrop);
 elem!(D12D, 12, 4, drop);
 elem!(Q16D, 16, 16, drop);
 elem!(X24D, 24, 8, drop);
